@@ -250,3 +250,12 @@ def standard_roots(real=False):
             rid = uuid.UUID(int=(0xd778c271902595a82f6dcb8960b8ad00 << 0) + i)
             out.append(refdc.RootKeyRec(rid, bytes((7 * i + j) & 0xFF for j in range(64)), hn, sa, sp, plen, publen))
     return out
+
+
+def odd_roots():
+    """toy-only root keys whose private key length is not a whole number of octets (the draw is ceil(bits / 8) octets, used as is)"""
+    out = []
+    for i, (hn, plen) in enumerate((("SHA512", 61), ("SHA256", 63), ("SHA1", 65), ("SHA384", 57))):
+        rid = uuid.UUID(int=0xd778c271902595a82f6dcb8960b8ae00 + i)
+        out.append(refdc.RootKeyRec(rid, bytes((11 * i + j) & 0xFF for j in range(64)), hn, "DH", refimpl.ffc_params(*SMALL_DH), plen, 32))
+    return out
